@@ -42,9 +42,16 @@ def make_problem(rng):
     far = bool(rng.random() < 0.12) and G.count_cp_kernels(spec) == 0   # training inputs far from the origin (time-stamps ...)
     x = G.random_points(rng, n, d, far=far)
     y_scale = 10.0 ** rng.uniform(-2, 2)
+    ints = bool(rng.random() < 0.08) and not far
+    if ints:
+        # integer-valued inputs, targets and errors, handed over in narrow integer types (pixel / channel numbers, counts)
+        x = np.stack([rng.choice(np.arange(-120, 121), size=n, replace=False) for _ in range(d)], axis=1).astype(float)
+        y_scale = 40.0
     span = np.where(np.ptp(x, axis=0) > 0, np.ptp(x, axis=0), 1.0)
     w = rng.normal(size=d) / span
     y = y_scale * (np.sin(3 * (x - x.mean(0)) @ w) + 0.3 * rng.normal(size=n)) + y_scale * rng.normal() * rng.choice([0, 1, 30])
+    if ints:
+        y = np.rint(y)
     theta_c = G.random_theta(spec, rng, x, y_scale)
     mean_name = str(rng.choice(G.MEANS))
     if far:
@@ -58,6 +65,8 @@ def make_problem(rng):
         err = None
     elif noise == "y_err":
         err = y_scale * 10.0 ** rng.uniform(-3, 0, size=n)
+        if ints:
+            err = np.maximum(np.rint(err * 4), 1.0)
         S = np.diag(err**2)
     else:
         err = None
@@ -65,7 +74,7 @@ def make_problem(rng):
         S = B @ B.T + np.diag((y_scale * 10.0 ** rng.uniform(-3, -0.5, size=n)) ** 2)
         S = 0.5 * (S + S.T)
     return dict(d=d, n=n, x=x, y=y, spec=spec, theta_c=theta_c, mean=mean_name, theta_m=theta_m,
-                noise=noise, S=S, err=err, y_scale=y_scale, far=far)
+                noise=noise, S=S, err=err, y_scale=y_scale, far=far, ints=ints)
 
 
 def build_regressor(p, rng, form=None, perm=None, noise_as=None):
@@ -91,6 +100,11 @@ def build_regressor(p, rng, form=None, perm=None, noise_as=None):
         xa, ya = x[:, 0].copy(), y.copy()
     else:
         xa, ya = x.copy(), y.copy()
+    if p.get("ints") and form != "list":
+        xa = xa.astype(np.int8)
+        ya = ya.astype(np.int16 if np.abs(ya).max() < 32000 else np.int32)
+        if "y_err" in kw:
+            kw["y_err"] = np.asarray(kw["y_err"]).astype(np.uint8 if np.max(kw["y_err"]) < 256 else np.uint16)
     hp = np.concatenate([p["theta_m"], theta_c])
     gp = GpRegressor(xa, ya, hyperpars=hp, kernel=G.build_repo_kernel(p["spec"]), mean=G.build_repo_mean(p["mean"]), **kw)
     return gp, x, y, theta_c
